@@ -402,5 +402,6 @@ Definition rewrite_ok (pbs_array_header drop var val : string) : bool :=
   && String.eqb var (index_var PBS) && String.eqb val "1".
 
 (* the command line grower *)
-Inductive cli_action := CliGrowMissing.
-Inductive grow_missing_ids := GmMissingResults.
+(* what the CLI does with the crop it opens, and which ids Crop.grow_missing hands to Crop.grow *)
+Inductive cli_action := CliGrowMissing | CliOther.
+Inductive grow_missing_ids := GmMissingResults | GmOther.
